@@ -2,7 +2,7 @@
 into the evidence file. The checks themselves live in lean/Insim/Props/<ID>.lean (theorems),
 harness/src/<id>.rs (correspondence streams + implementation-side oracle) and translate/*.py."""
 
-TRANSLATORS = ["vehicle", "durations", "track", "codepages", "builder"]
+TRANSLATORS = ["vehicle", "durations", "track", "codepages", "builder", "packets"]
 
 TRUSTED_COMMON = [
     "Lean 4.33.0 kernel; axioms allowed: propext, Classical.choice, Quot.sound (audited with #print axioms on every run); no sorry/admit/native_decide/bv_decide/own axioms (grep on every run)",
@@ -187,5 +187,20 @@ PROPS = {
         ],
         "rule": "cancel lines: frames x read script with Pending events x write script x set of suspension indices at which the future is dropped; result = delivered results and all outgoing bytes; distinct = distinct op text",
         "assumptions": ["suspension points are the Pending returns of the transport's poll_read / poll_write (the 90 s timeout adds none of its own before it fires)"],
+    },
+    "C01": {
+        "level_text": "Lean theorems over a deep embedding of the binrw subset the crate uses (flat field lists with per-side pads / widths / scales, counted vectors, the hand-written field codecs): for EVERY field list whose reader and writer attributes agree and every in-domain value list, decoding the writer's bytes followed by anything returns the values and exactly the rest (induction over the fields); the same for counted vectors and whole bodies; lifted through Packet::write/read (type byte) and Codec::encode/decode in both size modes to 'encode then decode = identity, frame consumed completely' and 're-encode gives the identical bytes'. Eight of the nine hand-written field codecs (Vehicle, Track, RaceLaps, Fuel, Fuel200, ConInfo, SmallType, CimMode) are proved lawful on explicit in-domain predicates and plug into the generic proof. The 73 layouts are regenerated from the packet declarations on every run and re-checked well formed, with 73 distinct type numbers, by decide +kernel. Not covered by a theorem (correspondence + oracle only): the set-valued MAL/IPB, the until-end-of-frame texts of III/MTC/BTN/ACR, the hand-written MSO body, VER's 8-byte GameVersion text; text fields are proved at the byte level (NUL-free bytes up to the width), their Unicode meaning is C10's subject. Tied by correspondence over all 73 kinds x both modes: type-directed generated frames, every enumerant, every flag constant, boundary integers, all race-length/fuel bytes, all values of the packed ConInfo bytes: model and real codec agree on the decoded field values (via serde) and on the re-encoded bytes.",
+        "level_note": "Trusted: Lean kernel; translate/packets.py (its reading of binrw's attribute subset is itself validated on every run: the generated layouts, executed by the model's generic codec, must agree with real binrw on every generated frame of every kind); the harness incl. its JSON canonicaliser and second pass (text tokens resolved through the real to_lossy_string). binrw 0.14's derive semantics are modelled, not verified.",
+        "technique": "Lean 4 proof (generic codec over a deep embedding of layouts; induction over field lists; decide +kernel on the regenerated layouts) + translator + differential correspondence with a resolution pass",
+        "translators": ["packets", "vehicle", "track"],
+        "resolve": True,
+        "trusted": [
+            "translate/packets.py: the Packet enum (variant, magic, body type), every #[binrw] struct reachable from it (field order, pads per side, widths, arrays, nested structs, calc/count), repr(u8) enums, bitflags blocks, newtypes, duration and codepage-string helper attributes, bw(assert) bounds, PlcAllowedCarsSet's bit table",
+            "hand-modelled, tied by the correspondence run only: the hand-written BinRead/BinWrite impls (ConInfo, SmallType, CimMode, Mso, RaceLaps, Fuel, Fuel200, Vehicle, Track), parse/write_game_version, the string writer/reader, spclose, the MAL/IPB set helpers",
+            "modelled not verified: binrw 0.14 derive semantics (field order, pad = zeros on write / seek on read with no end check, count, calc, repr, magic, variant fallback), serde's view of the typed packet (used to read field values)",
+        ],
+        "rule": "pkt.rt per generated valid frame (decode, field values, re-encode) and pkt.dec per frame with codepage text; per kind and mode: random in-domain frames plus single-field sweeps (every enumerant / flag constant / boundary integer / custom byte); distinct = distinct op text",
+        "assumptions": ["equality of packets is field-wise via the serde view: integers and enumerants by value, floats by bit pattern (non-finite floats only as 'non-finite'), text by code points, sets in insertion order", "'in-domain' = RepBody: integers in range, defined enumerants, only defined flag bits, nibbles <= 15, durations a multiple of the field resolution and in range, NUL-free text up to the width, element counts fitting the count byte"],
+        "timeout": {"quick": 900, "thorough": 7200},
     },
 }
